@@ -3,6 +3,7 @@
 package scen
 
 import (
+	"bytes"
 	"encoding/hex"
 	"fmt"
 	"net"
@@ -128,7 +129,18 @@ func c08Run(c *Ctx, idx int, k c08Case) {
 		defer exCl.Close()
 	}
 	// PREPARE through the proxy (reaches one host); every host then learns or forgets as the case says
-	pf, err := prepCl.Call(1, &message.Prepare{Query: stmt}, 10*time.Second)
+	// every third case (protocol v4 and later) the client's PREPARE carries a custom payload, as a DSE driver's does for
+	// proxy execution: a re-PREPARE is "the original statement" only with that payload
+	var prepPayload map[string][]byte
+	if k.PrepVer >= 4 && idx%3 == 1 {
+		prepPayload = map[string][]byte{"ProxyExecute": []byte("some_user")}
+	}
+	pframe := frame.NewFrame(primitive.ProtocolVersion(k.PrepVer), 1, &message.Prepare{Query: stmt})
+	if prepPayload != nil {
+		pframe.SetCustomPayload(prepPayload)
+		r.Obs("prepares_with_custom_payload", 1)
+	}
+	pf, err := prepCl.CallF(pframe, 10*time.Second)
 	if err != nil || pf.OpCode != primitive.OpCodeResult {
 		r.Inconc(fmt.Sprintf("c08: PREPARE failed: %v", err))
 		return
@@ -251,8 +263,23 @@ func c08Run(c *Ctx, idx int, k c08Case) {
 						body = p
 					}
 				}
-				if q := prepareText(body); q != stmt && !containsStr(extraStmts, q) {
+				var gotPayload map[string][]byte
+				if primitive.HeaderFlag(e.Fl).Contains(primitive.HeaderFlagCustomPayload) {
+					rd := bytes.NewReader(body)
+					if pl, perr := primitive.ReadBytesMap(rd); perr == nil {
+						gotPayload = pl
+						body = body[len(body)-rd.Len():]
+					}
+				}
+				q := prepareText(body)
+				if q != stmt && !containsStr(extraStmts, q) {
 					r.Violate(mon.Violation{Signature: "C08/reprepare-wrong-text/" + k.class(), Detail: fmt.Sprintf("%s: re-PREPARE carried %q, original statement is %q", k.key(), q, stmt), Scenario: scenario})
+				}
+				if q == stmt && prepPayload != nil {
+					r.Obs("reprepares_of_statements_with_custom_payload", 1)
+					if string(gotPayload["ProxyExecute"]) != string(prepPayload["ProxyExecute"]) {
+						r.Violate(mon.Violation{Signature: "C08/reprepare-lost-custom-payload/" + k.class(), Detail: fmt.Sprintf("%s: the client's PREPARE carried the custom payload %q; the re-PREPARE sent to host %d carries %q (header flags %#x)", k.key(), prepPayload, e.Host, gotPayload, e.Fl), Scenario: scenario})
+					}
 				}
 			}
 			if e.Note == "version-mismatch" || e.Note == "compressed-without-negotiation" {
